@@ -31,11 +31,12 @@ def run(ctx):
     #    crashes inside the delete; reads + listings after every later step
     n = ctx.pick(1, 5)
     gens = te.run_parallel([
-        lambda: te.generate(ctx, sd, "GenDel", te.gen_consts(["write", "snapshot", "compact", "delete", "reopen", "crash"], dele=4, crash=2), num=10 * n),
+        lambda: te.generate(ctx, sd, "GenDel", te.gen_consts(["write", "snapshot", "compact", "delete", "reopen", "crash"], dele=4, crash=2, crash_in=("delete", "idle", "compact", "restart")), num=10 * n),
         lambda: te.generate(ctx, sd, "GenGate", te.gen_consts(["write", "snapshot", "gate", "delete", "reopen", "crash"], dele=3, crash=2, comp=0), num=6 * n),
-        lambda: te.generate(ctx, sd, "GenWindow", te.gen_consts(["write", "gate", "delete"], dele=3, crash=0, comp=0, genlen=8), num=16 * n, variants=1),
+        lambda: te.generate(ctx, sd, "GenWindow", te.gen_consts(["write", "gate", "delete"], dele=3, crash=0, comp=0, genlen=8), num=12 * n, variants=1),
+        lambda: te.generate(ctx, sd, "GenPartial", te.gen_consts(["write", "snapshot", "delete"], dele=3, crash=0, comp=0, w=5, genlen=8), num=24 * n, variants=1),
         lambda: te.generate(ctx, sd, "GenDelComp", te.gen_consts(["write", "snapshot", "compact", "delete"], dele=3, crash=0, w=5, snap=4), num=8 * n),
-    ], max_workers=4)
+    ], max_workers=5)
     behs = te.known_behaviours(ctx) + [b for g in gens for b in g]
     acts, f1, f14 = te.stats(behs)
     ndel = sum(v for k, v in acts.items() if k.startswith("delete"))
@@ -45,6 +46,7 @@ def run(ctx):
     done = te.replay_and_judge(ctx, behs, "replay")
     extra = {"replayed_behaviours": done.get("behaviours", 0), "replayed_steps": done.get("steps", 0),
              "crash_images": done.get("crash_images", 0), "crash_images_recovered": done.get("crash_images_recovered", 0),
+             "tainted_model_drift": done.get("tainted_model_drift", 0),
              "delete_inside_snapshot_window_behaviours": f14, "deletes": ndel, "step_kinds": acts}
     return ctx.finish("model_checking", extra, assumptions=[
         "selections: one series (measurement or tag predicate), two measurements, whole database; ranges closed and open-ended, incl. single instants; 3 timestamps incl. epoch 0",
